@@ -196,6 +196,16 @@ func TestC19(t *testing.T) {
 						t.Errorf("VERIF-UNHEALTHY enumerated kill position %d of %s was not reached", k, f.name)
 					}
 				})
+				// Same kill, but a further good commit arrives before the
+				// next (undisturbed) run: what the killed run left behind
+				// must not be mistaken for the result of the newer revision.
+				h2 := append(append([]Action{}, h...), Action{Op: "commit"})
+				t.Run(fmt.Sprintf("%s/k%d+commit", f.name, k), func(t *testing.T) {
+					t.Parallel()
+					c := HistoryCase(h2)
+					props.Judge(t, ev, Oracle, c, func() any { return c })
+					ev.Class("enumerated-kill-then-commit")
+				})
 			}
 		}
 	})
